@@ -20,6 +20,14 @@ PROPS = {
         "level_note": "I/O model of contracts/shims/io.rs; central-header parsing, ZIP64 extra fields, directory walk, name lookup and data offsets (units U5, U6, U8) are not under contract yet and are listed as undecided; decoders assumed",
         "undecided": ["central directory header decode, ZIP64 extra-field substitution, archive offset shift (unit U5)", "directory walk, names_map last-wins, by_name/by_index not-found, find_content data offset (units U6/U8)", "entry content equals original bytes (decoders assumed, CRC layer = C04)"],
     },
+    "C06": {
+        "units": ["U3_paths"],
+        "kani": [],
+        "technique": "Verus contract on the real enclosed_name over an uninterpreted component walk + containment lemma",
+        "level_text": "Deductive proof for every entry name and for ANY behaviour of std::path::Components (left uninterpreted): enclosed_name returns Some exactly when the name has no NUL, no prefix/root component and its running depth never goes negative, and then returns the name itself; a checked lemma shows that such a component list joined onto any base directory keeps that base as a prefix at every step of lexical resolution.",
+        "level_note": "std::path is assumed only to the extent that Path::new(name).components() yields some component sequence; mangled_name (file_name_sanitized: find/replace/filter/fold over std iterator adapters) is not under contract and is listed as undecided; delegating accessors in read.rs are checked in unit U8",
+        "undecided": ["mangled_name / file_name_sanitized (std iterator adapters and string slicing; DESIGN.md section 5 C06)", "ZipFile::enclosed_name / mangled_name delegation (unit U8)"],
+    },
     "C18": {
         "units": [],
         "kani": ["types"],
